@@ -51,6 +51,12 @@ def jobs(tier, seed):
                     for k in range(slices):
                         out.append(dict(m=m, t=t, refuse=refuse, policy=policy, bound=bound, k=k, slices=slices,
                                         seed=seed, chunks='full'))
+    # handshakes split on TWO connections at once (no other scheduling deviation): needs m >= 4 to have two clients
+    # with different numbers of keys talking to one server
+    for (m, t) in ((4, 1),) if tier == 'quick' else ((4, 1), (4, 0), (5, 1), (5, 2), (6, 2)):
+        for refuse in ((False,) if tier == 'quick' else (False, True)):
+            for k in range(16):
+                out.append(dict(m=m, t=t, refuse=refuse, policy='eager', bound=2, k=k, slices=16, seed=seed, chunks='full', chunk_only=True))
     out.sort(key=lambda j: (-j['m'], -j['bound']))
     return out
 
@@ -103,7 +109,8 @@ def run_job(job):
             ctxs.append({})
             w.spawn(p, prog, ctxs[p])
 
-    cfg = f"m{m}t{t}/{'refuse' if job['refuse'] else 'block'}/{job['policy']}"
+    sched_alts = not job.get('chunk_only')
+    cfg = f"m{m}t{t}/{'refuse' if job['refuse'] else 'block'}/{job['policy']}{'/chunks-only' if not sched_alts else ''}"
 
     def judge(w, x):
         part.case(key=(cfg, x.deviations), nontrivial=bool(x.deviations) or job['k'] == 0)
@@ -128,9 +135,9 @@ def run_job(job):
         part.state_keys = set(x.state_keys)
         part.traces += 1
     else:
-        _, fl = first_level_deviations(world, setup, job['policy'], job['chunks'])
+        _, fl = first_level_deviations(world, setup, job['policy'], job['chunks'], sched_alts)
         n = explore(world, setup, judge, job['bound'], first_level=fl[job['k']::job['slices']],
-                    policy=job['policy'], chunks=job['chunks'], record_states=True, part=part)
+                    policy=job['policy'], chunks=job['chunks'], sched_alts=sched_alts, record_states=True, part=part)
         part.traces += n
     if job['k'] == 0:
         part.note('deviation_bound', {cfg: job['bound']})
@@ -150,7 +157,8 @@ def replay(case):
         for p in range(m):
             ctxs.append({})
             w.spawn(p, prog, ctxs[p])
-    x = run_execution(world, setup, [(i, a) for i, a in case['deviations']], job['policy'], job['chunks'])
+    x = run_execution(world, setup, [(i, a) for i, a in case['deviations']], job['policy'], job['chunks'],
+                      sched_alts=not job.get('chunk_only'))
     probs = judge_keys(m, t, ctxs)
     if x.status != 'done':
         probs.append((x.status, x.status))
